@@ -172,6 +172,7 @@ def run_c17(res, tier, seed):
         res.cov["evaluations"] += len(impl_reqs) + len(model_reqs)
         ii = mi = 0
         multi = 0
+        graph_reqs = []
         for r, m in zip(reqs, meta):
             kind = m[0]
             if kind == "islocal":
@@ -233,9 +234,20 @@ def run_c17(res, tier, seed):
                     todo += byname[n].deps
                 exp = sorted(f"{n}:{'external' if byname[n].kind == 'registry' else 'local'}:[{','.join(sorted(byname[n].deps))}]" for n in seen)
                 got = a.split(" | ")[0].split(" ")[1:]
+                # M-graph (Lean): the same manifests, packages numbered in the order of the layout; the model's graph must be the implementation's
+                num = {p.name: i for i, p in enumerate(pkgs)}
+                spec = ";".join(f"{num[p.name]}:{','.join(str(num[d]) for d in p.deps if d in num)}" for p in pkgs) or "-"
+                graph_reqs.append((f"graph\t{num['app']}\t{spec}", r, sorted(f"{num[g.split(':')[0]]}:[{','.join(str(x) for x in sorted(num[d] for d in g.split(':[')[1].rstrip(']').split(',') if d))}]" for g in got if g.split(':')[0] in num)))
                 if sorted(got) != exp:
                     res.add_violation("C17/package-graph", f"assemble_graph gives {sorted(got)}, the layout is {exp}", {"request": r, "impl": a, "expected": exp})
         res.cov["distinct_nontrivial"] = multi
+        if graph_reqs:
+            gmo, _ = common.run_lines(common.DRIVER_BIN, [q for q, _, _ in graph_reqs])
+            res.cov["graph_model_tie"] = len(graph_reqs)
+            for (q, r, impl), m_ in zip(graph_reqs, gmo):
+                mg = sorted(m_.split(" ")[1:]) if m_.startswith("ok") else [m_]
+                if mg != impl:
+                    res.disagreements.append((q[:200], " ".join(impl)[:300], " ".join(mg)[:300]))
         run_imports(res, tier, seed)
         # end-to-end through the real binary on a few trees
         e2e = trees[: (6 if tier == "quick" else 60)]
@@ -765,7 +777,7 @@ def run_e2e(res, tb, pkgs):
         c.close()
 
 
-PROOF_MODULES = {"C17": ["Glas.Props.C17", "Glas.Props.C17Imports"]}
+PROOF_MODULES = {"C17": ["Glas.Props.C17", "Glas.Props.C17Imports", "Glas.Props.C17Graph"]}
 
 
 def run(prop, res, tier, seed):
